@@ -45,7 +45,8 @@ impl<'a> Reader<'a> {
             result.push(c);
             self.begin += 1;
             read_something = true;
-            if c == '\r' && self.peek() == b'\n' {
+            // peek() returns a stale byte once the input is exhausted, so test eof as well
+            if c == '\r' && self.peek() == b'\n' && !self.eof {
                 result.pop().unwrap();
                 self.begin += 1;
                 break;
